@@ -86,24 +86,27 @@ class HasStates:
 
     def state_transition(self, sm, newstate):
         """handle status updates"""
-        status = self.get_status(newstate)
-        next_task = sm.next_task  # read once: an other thread might replace it meanwhile
-        if next_task:
-            if isinstance(next_task, Stop):
-                if newstate and status is not None:
-                    status = status[0], f'stopping ({status[1]})'
-            elif newstate:
-                # restart case
-                if status is not None:
-                    if sm.status[1] == status[1]:
-                        status = sm.status
-                    else:
-                        status = sm.status[0], f'restarting ({status[1]})'
-            else:
-                # start case
-                status = self.get_status(next_task.newstate, BUSY)
-        if status:
-            sm.status = status
+        # with the lock: the status must not replace the one of a request made
+        # by an other thread after next_task was looked at
+        with self._request_lock:
+            status = self.get_status(newstate)
+            next_task = sm.next_task
+            if next_task:
+                if isinstance(next_task, Stop):
+                    if newstate and status is not None:
+                        status = status[0], f'stopping ({status[1]})'
+                elif newstate:
+                    # restart case
+                    if status is not None:
+                        if sm.status[1] == status[1]:
+                            status = sm.status
+                        else:
+                            status = sm.status[0], f'restarting ({status[1]})'
+                else:
+                    # start case
+                    status = self.get_status(next_task.newstate, BUSY)
+            if status:
+                sm.status = status
         if self.all_status_changes:
             self.read_status()
 
